@@ -504,6 +504,11 @@ func (x *Executor) applyContract(fr *Frame, st *State, reach string, con *Contra
 	env2 := &Env{x: x, u: u, vars: vars, bound: map[string]Val{}, st: st, old: pre, pkg: cpkg}
 	for _, en := range con.Ensures {
 		t, err := env2.Eval(en.E)
+		if err != nil && !con.Trusted && x.mentionsCalleeLocal(con, en.E) {
+			// a postcondition stated over the callee's own locals is proved inside the callee and
+			// says nothing a caller can use: it is not assumed here (assuming less is sound)
+			continue
+		}
 		if err != nil {
 			u.addObl(&Obligation{Name: fmt.Sprintf("%s#call:%s:ensures%s", fr.prefix, con.Key(), clauseLabel(en)), Kind: "ensures@call", Fail: err.Error(), Clause: en.Src})
 			continue
@@ -1024,4 +1029,62 @@ func (x *Executor) execCopy(fr *Frame, st *State, reach string, args []Val) Val 
 	// copy of zero elements (including nil destination) changes nothing
 	x.heapSet(st, comp, fmt.Sprintf("(ite (= %s 0) %s (store %s (s.base %s) %s))", n, h, h, d.T, inner))
 	return Val{T: n, Ty: types.Typ[types.Int]}
+}
+
+// mentionsCalleeLocal: the expression names a local variable of the contract's own function.
+func (x *Executor) mentionsCalleeLocal(con *Contract, e Expr) bool {
+	fn, err := x.u.eng.FindFunction(con)
+	if err != nil || fn == nil {
+		return false
+	}
+	locals := map[string]bool{}
+	for _, b := range fn.Blocks {
+		for _, in := range b.Instrs {
+			if a, ok := in.(*ssa.Alloc); ok && a.Comment != "" {
+				locals[a.Comment] = true
+			}
+		}
+	}
+	for _, p := range con.Params {
+		delete(locals, p)
+	}
+	for _, r := range con.Results {
+		delete(locals, r)
+	}
+	found := false
+	var walk func(e Expr)
+	walk = func(e Expr) {
+		switch t := e.(type) {
+		case *EIdent:
+			if locals[t.Name] {
+				found = true
+			}
+		case *ECall:
+			for _, a := range t.Args {
+				walk(a)
+			}
+		case *EUnary:
+			walk(t.X)
+		case *EBinary:
+			walk(t.X)
+			walk(t.Y)
+		case *ESel:
+			walk(t.X)
+		case *EIndex:
+			walk(t.X)
+			walk(t.I)
+		case *ESlice:
+			walk(t.X)
+			if t.Lo != nil {
+				walk(t.Lo)
+			}
+			if t.Hi != nil {
+				walk(t.Hi)
+			}
+		case *EQuant:
+			walk(t.Body)
+		}
+	}
+	walk(e)
+	return found
 }
